@@ -20,8 +20,11 @@ VARIABLES l,     \* next event
           S,     \* Ideal module state
           h,     \* <<space, id>> -> token   (caller's handles)
           ih,    \* ImportsID -> key
-          ops    \* op names seen in this trace (for attribution)
-vars == <<l, S, h, ih, ops>>
+          ops,   \* op names seen in this trace (for attribution)
+          V      \* Impl-shaped shadow (Reorg.tla): per space the slot vector of the real Module, the
+                 \* number of imports the parsed module had, and whether the shadow is still exact
+vars == <<l, S, h, ih, ops, V>>
+R == INSTANCE Reorg
 
 Range(s) == {s[i] : i \in DOMAIN s}
 e == Rec[l]
@@ -35,7 +38,36 @@ Chk(c, ok, d) ==
 HKey(sp, id) == <<sp, h[<<sp, id>>]>>
 HasH(sp, id) == <<sp, id>> \in DOMAIN h
 
-Init == l = 1 /\ S = I_Empty /\ h = <<>> /\ ih = <<>> /\ ops = {}
+V_Empty == [vec |-> [sp \in Spaces |-> <<>>], n0 |-> [sp \in Spaces |-> 0], exact |-> FALSE]
+Init == l = 1 /\ S = I_Empty /\ h = <<>> /\ ih = <<>> /\ ops = {} /\ V = V_Empty
+
+\* ---- the Impl-shaped shadow: what the real index-space vectors look like ---------------------
+\* slot = [id, tok, imp, del, iid]; ids are slot positions; iid = position in the imports vector
+V_Base(ents, imps) ==
+    LET E(sp) == {x \in ents : x.k[1] = sp}
+        IidOf(k) == IF \E i \in DOMAIN imps : imps[i] = k THEN (CHOOSE i \in DOMAIN imps : imps[i] = k) - 1 ELSE 0
+    IN [vec |-> [sp \in Spaces |-> [i \in 1 .. Cardinality(E(sp)) |->
+                    LET x == CHOOSE y \in E(sp) : y.id = i - 1
+                    IN [id |-> i - 1, tok |-> x.k[2], imp |-> (x.kind = "I"), del |-> FALSE, iid |-> IidOf(x.k)]]],
+        n0 |-> [sp \in Spaces |-> Cardinality({x \in E(sp) : x.kind = "I"})],
+        exact |-> TRUE]
+V_Add(sp, id, tok, kind, iid) ==
+    IF V.exact /\ id = Len(V.vec[sp])
+    THEN [V EXCEPT !.vec[sp] = Append(@, [id |-> id, tok |-> tok, imp |-> (kind = "I"), del |-> FALSE, iid |-> (IF kind = "I" THEN iid ELSE 0)])]
+    ELSE [V EXCEPT !.exact = FALSE]
+V_Delete(sp, id) ==
+    IF V.exact /\ id + 1 \in DOMAIN V.vec[sp] THEN [V EXCEPT !.vec[sp][id + 1].del = TRUE] ELSE [V EXCEPT !.exact = FALSE]
+V_Conv(id, tok, iid) ==
+    IF V.exact /\ id + 1 \in DOMAIN V.vec["f"]
+    THEN [V EXCEPT !.vec["f"][id + 1] = [@ EXCEPT !.tok = tok, !.imp = TRUE, !.iid = iid]]
+    ELSE [V EXCEPT !.exact = FALSE]
+V_Replace(iid, tok) ==
+    LET slots == {i \in DOMAIN V.vec["f"] : V.vec["f"][i].imp /\ ~V.vec["f"][i].del /\ V.vec["f"][i].iid = iid} IN
+    IF V.exact /\ Cardinality(slots) = 1
+    THEN LET i == CHOOSE x \in slots : TRUE IN [V EXCEPT !.vec["f"][i] = [@ EXCEPT !.tok = tok, !.imp = FALSE]]
+    ELSE [V EXCEPT !.exact = FALSE]
+\* prediction of the encoded index space of `sp` by the transcribed algorithm
+V_Predict(sp) == LET out == R!ReorgNow(V.vec[sp], V.n0[sp]) IN [i \in DOMAIN out |-> out[i].tok]
 
 Consume == l <= Len(Rec) /\ l' = l + 1
 
@@ -60,6 +92,7 @@ Base ==
                   (CHOOSE x \in ents : <<x.k[1], x.id>> = p).k[2]]
        /\ ih' = [i \in 0 .. (Len(e.imps) - 1) |-> e.imps[i + 1]]
        /\ ops' = {}
+       /\ V' = V_Base(ents, e.imps)
 
 IsCall(op) == e.t = "call" /\ e.op = op
 
@@ -71,6 +104,7 @@ Rejected ==          \* a call that panicked: the Ideal state is unchanged (B.4)
                [] OTHER -> S
     /\ UNCHANGED <<h, ih>>
     /\ ops' = ops \cup {e.op \o "!"}
+    /\ V' = [V EXCEPT !.exact = FALSE]      \* an aborted call may have left anything behind
 
 Add ==
     /\ IsCall("add") /\ ~e.panic
@@ -83,12 +117,14 @@ Add ==
        /\ h' = (<<e.sp, e.id>> :> e.tok) @@ h
        /\ ih' = IF e.kind = "I" THEN (e.iid :> k) @@ ih ELSE ih
     /\ ops' = ops \cup {"add_" \o e.sp \o e.kind}
+    /\ V' = V_Add(e.sp, e.id, e.tok, e.kind, e.iid)
 
 Delete ==
     /\ IsCall("delete") /\ ~e.panic
     /\ S' = I_Delete(S, HKey(e.sp, e.id))
     /\ UNCHANGED <<h, ih>>
     /\ ops' = ops \cup {"delete_" \o e.sp}
+    /\ V' = V_Delete(e.sp, e.id)
 
 ConvL2I ==
     /\ IsCall("conv_l2i") /\ ~e.panic
@@ -102,6 +138,7 @@ ConvL2I ==
        ELSE /\ Chk("conv_refused_on_local", S.ent[old].kind = "I", [id |-> e.id])
             /\ UNCHANGED <<S, h, ih>>
     /\ ops' = ops \cup {"conv_l2i"}
+    /\ V' = IF e.ret THEN V_Conv(e.id, e.tok, e.iid) ELSE V
 
 ReplaceImport ==
     /\ IsCall("replace_import") /\ ~e.panic
@@ -112,6 +149,7 @@ ReplaceImport ==
        /\ h' = [p \in DOMAIN h |-> IF p \in ids THEN e.tok ELSE h[p]]
        /\ UNCHANGED ih
     /\ ops' = ops \cup {"replace_import"}
+    /\ V' = V_Replace(e.iid, e.tok)
 
 Inject ==            \* a new reference site (injected code, added export, new initialiser ...)
     /\ IsCall("inject") /\ ~e.panic
@@ -119,18 +157,21 @@ Inject ==            \* a new reference site (injected code, added export, new i
        S' = I_AddSite(S, e.s, HKey(e.sp, e.id), owner, e.sk)
     /\ UNCHANGED <<h, ih>>
     /\ ops' = ops \cup {"inject_" \o e.sk}
+    /\ UNCHANGED V
 
 RemoveSite ==
     /\ IsCall("remove_site") /\ ~e.panic
     /\ S' = I_RemoveSite(S, e.s)
     /\ UNCHANGED <<h, ih>>
     /\ ops' = ops \cup {"remove_site"}
+    /\ UNCHANGED V
 
 SetName ==
     /\ IsCall("set_name") /\ ~e.panic
     /\ LET k == HKey(e.sp, e.id) IN S' = I_SetName(S, k, k, e.name)
     /\ UNCHANGED <<h, ih>>
     /\ ops' = ops \cup {"set_name_" \o e.via}
+    /\ UNCHANGED V
 
 ---------------------------------------------------------------------------
 ObsTok(s) ==
@@ -176,15 +217,26 @@ EncodeOk ==
 EncodePanic ==
     Chk("encode_panic", Dangling(S) # {}, [msg |-> e.msg])
 
+\* conformance of the Impl-shaped model: the real encoder's index spaces must be exactly the ones the
+\* transcribed re-indexing (Reorg.tla) yields for the shadow vectors.  A difference is SPEC-DRIFT (the
+\* model no longer describes the code), reported but not a property verdict.
+DriftOk ==
+    \A sp \in Spaces :
+       IF V.exact /\ ~e.panic /\ V_Predict(sp) # e[sp]
+       THEN PrintT(<<"SPEC-DRIFT", ToJson([tr |-> e.tr, sp |-> sp, predicted |-> V_Predict(sp), observed |-> e[sp]])>>)
+       ELSE TRUE
+
 Encode ==
     /\ e.t = "encode"
     /\ IF e.panic THEN EncodePanic ELSE EncodeOk
+    /\ DriftOk
     /\ UNCHANGED <<S, h, ih, ops>>
+    /\ V' = [V EXCEPT !.exact = FALSE]      \* the encode renumbers the vectors: the shadow ends here
 
 ParseFail ==         \* the generated base module was not even accepted by Module::parse
     /\ e.t = "parse_fail"
     /\ Chk("parse_fail", FALSE, [msg |-> e.msg])
-    /\ UNCHANGED <<S, h, ih, ops>>
+    /\ UNCHANGED <<S, h, ih, ops, V>>
 
 Next ==
     /\ Consume
